@@ -2,6 +2,7 @@ package value
 
 import (
 	"fmt"
+	"sort"
 	"strings"
 
 	"github.com/smarthome-go/homescript/v3/homescript/analyzer/ast"
@@ -229,7 +230,16 @@ func deepCastRecursive(val Value, typ ast.Type, span errors.Span, allowCasts boo
 
 			outputFields := make(map[string]*Value)
 
-			for key, field := range objVal.FieldsInternal {
+			// Visit the fields in a fixed order: with several offending fields, map iteration
+			// order would decide which of them the error names.
+			keys := make([]string, 0, len(objVal.FieldsInternal))
+			for key := range objVal.FieldsInternal {
+				keys = append(keys, key)
+			}
+			sort.Strings(keys)
+
+			for _, key := range keys {
+				field := objVal.FieldsInternal[key]
 				found := false
 				for _, otherField := range objType.ObjFields {
 					if key == otherField.FieldName.Ident() {
